@@ -247,7 +247,7 @@ theorem packMsg_roundtrip (m : Msg) (c : Bool) (hm : msgWF m = true) :
     have hcnt : ¬ (m.questions.length > 65535 ∨ m.answers.length > 65535 ∨ m.authorities.length > 65535
         ∨ m.additionals.length > 65535) := by omega
     have hcap : ¬ msgLen m < 12 := by unfold msgLen; omega
-    simp only [hcnt, hcap, if_false, Nat.lt_irrefl, false_and, gt_iff_lt, hp1, hp2, hp3, hp4, Res.ok_bind]
+    simp only [hcnt, hcap, if_false, Nat.lt_irrefl, false_and, gt_iff_lt, hp1, hp2, hp3, hp4, Res.ok_bind, packOpt]
     simp only [Nat.sub_zero]
     rw [if_neg (by
       simp only [List.length_append, enc16_length, List.length_nil]
